@@ -22,4 +22,3 @@ LEVEL_TEXT = ("Proof: for EVERY op of the model (34 ops, arbitrary argument list
 LEVEL_NOTE = ("Left-over savepoints after a nested rollback are shown to be snapshots of the unchanged content; the second half of the property is proved "
               "outside iterator transactions only. Trusted: Lean kernel, translator, SQLite semantics as modelled, executor/generator/oracle.")
 TECHNIQUE = "Lean 4 proof (case analysis over all API ops on a transactional relational model) + differential execution with constructed failing calls"
-NOT_CLAIMED = "model being updated to follow /repo fix 95b7b25 (branch gF)"
